@@ -1,7 +1,9 @@
 /-
 Cost model: `routee-compass-core/src/model/cost/{cost_model,cost_ops,cost_aggregation}.rs`,
-`vehicle/vehicle_cost_rate.rs`, `network/network_cost_rate.rs`, `unit/cost.rs` (`enforce_*`).
-`none` stands for the `Err(CostModelError::…)` results (index out of bounds).
+`vehicle/vehicle_cost_rate.rs`, `network/network_cost_rate.rs`, `unit/cost.rs` (`enforce_*`),
+`algorithm/search/edge_traversal.rs` (the cost bookkeeping of `EdgeTraversal`).
+`none` stands for the `Err(CostModelError::…)` results (index out of bounds; weights summing to zero
+in `CostModel::new`).
 -/
 import Compass.Gen.Consts
 
@@ -110,47 +112,69 @@ structure CostModel (α : Type) where
   networkRates : List (NetworkCostRate α)
   agg : CostAggregation
 
+/-- one item of the iterator in `cost_ops::calculate_vehicle_costs`: `map_value(next − prev) * weight` -/
+def CostModel.vehicleTerm (m : CostModel α) (prev next : List α) (i : Nat) : Option α :=
+  match prev[i]?, next[i]?, m.vehicleRates[i]?, m.weights[i]? with
+  | some p, some n, some r, some w => some (r.mapValue (n - p) * w)
+  | _, _, _, _ => none
+
+/-- one item of the iterator in `cost_ops::calculate_network_traversal_costs` -/
+def CostModel.networkTraversalTerm (m : CostModel α) (prev next : List α) (e : Nat) (i : Nat) : Option α :=
+  match prev[i]?, next[i]?, m.weights[i]?, m.networkRates[i]? with
+  | some _, some _, some w, some r => some (r.traversalCost e * w)
+  | _, _, _, _ => none
+
+/-- one item of the iterator in `cost_ops::calculate_network_access_costs`
+(a missing rate gives zero, a missing weight the coefficient one) -/
+def CostModel.networkAccessTerm (m : CostModel α) (prev next : List α) (pe ne : Nat) (i : Nat) : Option α :=
+  match m.networkRates[i]? with
+  | none => some (zero : α)
+  | some r =>
+    match prev[i]?, next[i]? with
+    | some _, some _ => some (r.accessCost pe ne * (match m.weights[i]? with | some w => w | none => one))
+    | _, _ => none
+
+/-- `CostAggregation::agg_iter`: the first `Err` wins, otherwise aggregate -/
+def CostAggregation.aggIter (a : CostAggregation) (items : List (Option α)) : Option α :=
+  match allSome items with
+  | some cs => some (a.agg cs)
+  | none => none
+
 /-- `cost_ops::calculate_vehicle_costs` -/
 def CostModel.vehicleCosts (m : CostModel α) (prev next : List α) : Option α :=
-  match allSome (m.indices.map fun i =>
-      match prev[i]?, next[i]?, m.vehicleRates[i]?, m.weights[i]? with
-      | some p, some n, some r, some w => some (r.mapValue (n - p) * w)
-      | _, _, _, _ => none) with
-  | some cs => some (m.agg.agg cs)
-  | none => none
+  m.agg.aggIter (m.indices.map (m.vehicleTerm prev next))
 
 /-- `cost_ops::calculate_network_traversal_costs` -/
 def CostModel.networkTraversalCosts (m : CostModel α) (prev next : List α) (e : Nat) : Option α :=
-  match allSome (m.indices.map fun i =>
-      match prev[i]?, next[i]?, m.weights[i]?, m.networkRates[i]? with
-      | some _, some _, some w, some r => some (r.traversalCost e * w)
-      | _, _, _, _ => none) with
-  | some cs => some (m.agg.agg cs)
-  | none => none
+  m.agg.aggIter (m.indices.map (m.networkTraversalTerm prev next e))
 
-/-- `cost_ops::calculate_network_access_costs` (a missing rate gives zero, a missing weight one) -/
+/-- `cost_ops::calculate_network_access_costs` -/
 def CostModel.networkAccessCosts (m : CostModel α) (prev next : List α) (pe ne : Nat) : Option α :=
-  match allSome (m.indices.map fun i =>
-      match m.networkRates[i]? with
-      | none => some (zero : α)
-      | some r =>
-        match prev[i]?, next[i]? with
-        | some _, some _ => some (r.accessCost pe ne * (match m.weights[i]? with | some w => w | none => one))
-        | _, _ => none) with
-  | some cs => some (m.agg.agg cs)
-  | none => none
+  m.agg.aggIter (m.indices.map (m.networkAccessTerm prev next pe ne))
+
+/-- `total_cost` of `CostModel::traversal_cost`, before `enforce_strictly_positive` -/
+def CostModel.traversalTotal (m : CostModel α) (e : Nat) (prev next : List α) : Option α :=
+  match m.vehicleCosts prev next, m.networkTraversalCosts prev next e with
+  | some v, some n => some (v + n)
+  | _, _ => none
+
+/-- `total_cost` of `CostModel::access_cost`, before `enforce_strictly_positive` -/
+def CostModel.accessTotal (m : CostModel α) (pe ne : Nat) (prev next : List α) : Option α :=
+  match m.vehicleCosts prev next, m.networkAccessCosts prev next pe ne with
+  | some v, some n => some (v + n)
+  | _, _ => none
 
 /-- `CostModel::traversal_cost` -/
 def CostModel.traversalCost (m : CostModel α) (e : Nat) (prev next : List α) : Option α :=
-  match m.vehicleCosts prev next, m.networkTraversalCosts prev next e with
-  | some v, some n => some (enforceStrictlyPositive (v + n))
-  | _, _ => none
+  match m.traversalTotal e prev next with
+  | some t => some (enforceStrictlyPositive t)
+  | none => none
 
 /-- `CostModel::access_cost` -/
 def CostModel.accessCost (m : CostModel α) (pe ne : Nat) (prev next : List α) : Option α :=
-  match m.vehicleCosts prev next, m.networkAccessCosts prev next pe ne with
-  | some v, some n => some (enforceStrictlyPositive (v + n))
-  | _, _ => none
+  match m.accessTotal pe ne prev next with
+  | some t => some (enforceStrictlyPositive t)
+  | none => none
 
 /-- `CostModel::cost_estimate` -/
 def CostModel.costEstimate (m : CostModel α) (src dst : List α) : Option α :=
@@ -158,8 +182,69 @@ def CostModel.costEstimate (m : CostModel α) (src dst : List α) : Option α :=
   | some v => some (enforceNonNegative v)
   | none => none
 
-/-- `EdgeTraversal`: `access_cost`, `traversal_cost = total − access`, and `total_cost()` -/
+/-- what `CostModel::new` knows about one state feature: the entries of the three name-keyed
+mappings for the feature's name (`none` = the name is absent from that mapping) -/
+abbrev FeatureConfig (α : Type) := Option α × Option (VehicleCostRate α) × Option (NetworkCostRate α)
+
+/-- `weights_mapping.get(name).cloned().unwrap_or_default()`: an absent weight is `0.0` -/
+def FeatureConfig.weight (f : FeatureConfig α) : α :=
+  match f.1 with | some w => w | none => zero
+/-- `vehicle_rate_mapping.get(name).cloned().unwrap_or_default()`: an absent rate is `Zero` -/
+def FeatureConfig.vehicleRate (f : FeatureConfig α) : VehicleCostRate α :=
+  match f.2.1 with | some r => r | none => .zero
+/-- `network_rate_mapping.get(name).cloned().unwrap_or_default()`: an absent rate is `Zero` -/
+def FeatureConfig.networkRate (f : FeatureConfig α) : NetworkCostRate α :=
+  match f.2.2 with | some r => r | none => .zero
+
+/-- `CostModel::new`.  `features` has one entry per state feature, in the order
+`state_model.indexed_iter()` yields them (so the state indices are `0 … n-1`).
+`none` = `Err(InvalidCostVariables)`: the weights sum to zero (`iter().sum::<f64>() == 0.0`). -/
+def CostModel.new (features : List (FeatureConfig α)) (agg : CostAggregation) : Option (CostModel α) :=
+  let weights : List α := features.map FeatureConfig.weight
+  let s : α := weights.foldl (· + ·) zero
+  if s ≤ zero ∧ zero ≤ s then none
+  else some {
+    indices := List.range features.length
+    weights := weights
+    vehicleRates := features.map FeatureConfig.vehicleRate
+    networkRates := features.map FeatureConfig.networkRate
+    agg := agg }
+
+/-- `EdgeTraversal::total_cost` of the record built by `forward_traversal` / `reverse_traversal`:
+`access_cost` as accumulated there, `traversal_cost = total − access_cost` where `total` is what
+`CostModel::traversal_cost` returned -/
 def edgeTotalCost (access traversalTotal : α) : α := access + (traversalTotal - access)
+
+/-- the `access_cost` field of the `EdgeTraversal` record: `Cost::ZERO`, plus the access cost when
+there is a previous edge -/
+def edgeAccessShare (ac : Option α) : α :=
+  match ac with
+  | none => zero
+  | some a => zero + a
+
+/-- the cost bookkeeping of `EdgeTraversal::forward_traversal` / `reverse_traversal`.
+`trav` is the traversed edge, `pair` the `(prev_edge, next_edge)` pair handed to `access_cost` when the
+optional neighbouring edge is present (forward: `(previous edge, trav)`, reverse: `(trav, next edge)`),
+`prev` the state before, `accessed` the state after `access_model.access_edge`, `next` the state after
+`traversal_model.traverse_edge`.  Returns the `access_cost` and `traversal_cost` fields of the record;
+`none` = the `Err` of either cost-model call. -/
+def CostModel.edgeTraversal (m : CostModel α) (trav : Nat) (pair : Option (Nat × Nat))
+    (prev accessed next : List α) : Option (α × α) :=
+  match pair with
+  | none =>
+    match m.traversalCost trav prev next with
+    | some t => let acc : α := edgeAccessShare none; some (acc, t - acc)
+    | none => none
+  | some (pe, ne) =>
+    match m.accessCost pe ne prev accessed with
+    | none => none
+    | some a =>
+      match m.traversalCost trav prev next with
+      | some t => let acc : α := edgeAccessShare (some a); some (acc, t - acc)
+      | none => none
+
+/-- `EdgeTraversal::total_cost`: `access_cost + traversal_cost` -/
+def edgeRecordTotal (r : α × α) : α := r.1 + r.2
 
 end
 
